@@ -225,6 +225,11 @@ def install(eng):
                                     if ln_[0] == "i":
                                         gwrite(eng, st, "optlen", ln_)
                                     break
+        if base == "std::collections::HashMap::insert":
+            sp_ = server_field(eng, st, fr, "single_port")
+            ok_ = sp_ is not None and sp_[0] == "i" and st.ctx.entails(lin.le(lin.const(1), sp_[1]))
+            eng.oblige(st, fr, bb, "ghost:singleport", "client registration only in single-port mode", ok_,
+                       "" if ok_ else "a client is registered in the routing table although the server may be in multi-port mode")
         if (base.startswith(GUARDED_PREFIX) and base not in PURE_FS) or base in GUARDED_EXACT:
             # ---- access policy (C06): what must be known before this effect, per request kind
             if base not in ("std::path::Path::exists",):
@@ -304,6 +309,9 @@ def install(eng):
         elif base == "std::iter::Iterator::any":
             root, path, ti = eng.resolve(st, fr, t["dest"])
             gwrite(eng, st, "v_any", eng.read(st, root, path, ti))
+        elif base == "std::sync::mpsc::Sender::send" and fr.region == "listener":
+            root, path, ti = eng.resolve(st, fr, t["dest"])
+            gwrite(eng, st, "routed", I(lin.add(eng.read(st, root, path + ("$discr",))[1], lin.const(1))))
         elif base in ("std::path::Path::exists", "std::path::Path::try_exists", "std::path::Path::is_file"):
             root, path, ti = eng.resolve(st, fr, t["dest"])
             gwrite(eng, st, "v_exists", eng.read(st, root, path, ti))
